@@ -1486,13 +1486,21 @@ Error Assembler::_emit(InstId inst_id, const Operand_& o0, const Operand_& o1, c
           shift_value = o2.as<Imm>().value_as<uint64_t>();
         }
 
-        bool has_sp = o0.as<Gp>().is_sp() || o1.as<Gp>().is_sp();
+        // Only Rn can be SP (extended register form), Rm is always ZR-class.
+        bool has_sp = o0.as<Gp>().is_sp();
+
+        if (!check_gp_id(o1, kZR))
+          goto InvalidPhysId;
 
         // Shift operation - LSL, LSR, ASR.
         if (shift_type <= uint32_t(ShiftOp::kASR)) {
           if (!has_sp) {
             if (!check_signature(o0, o1)) {
               goto InvalidInstruction;
+            }
+
+            if (!check_gp_id(o0, kZR)) {
+              goto InvalidPhysId;
             }
 
             if (shift_value >= op_size) {
@@ -1520,6 +1528,11 @@ Error Assembler::_emit(InstId inst_id, const Operand_& o0, const Operand_& o1, c
         shift_type -= uint32_t(ShiftOp::kUXTB);
         if (shift_type > 7 || shift_value > 4) {
           goto InvalidImmediate;
+        }
+
+        // CMN|CMP (extend) - ZR is not allowed in Rn.
+        if (!check_gp_id(o0, kSP)) {
+          goto InvalidPhysId;
         }
 
         // Validate whether the register operands match extend option.
